@@ -5,7 +5,7 @@ no-failing-input-found).  /repo must be clean; it is restored after every seed."
 import glob, json, os, re, subprocess, sys, time
 
 ROOT = "/verif"
-names = sys.argv[1:] or sorted(os.path.basename(d) for d in glob.glob(ROOT + "/seeded/*") if os.path.isdir(d))
+names = sys.argv[1:] or sorted(os.path.basename(d) for d in glob.glob(ROOT + "/seeded/*") if os.path.isdir(d) and not os.path.basename(d).startswith("_"))
 res_path = ROOT + "/seeded/RESULTS.json"
 results = json.load(open(res_path)) if os.path.exists(res_path) else {}
 for name in names:
